@@ -333,6 +333,19 @@ Fixpoint x2t (x : xnode) : tree :=
   | XDoctype nm _ => TComment nm
   end.
 
+(* the SAX serialisation of a DOM (what a parser reports for the same document): a CDATA section is
+   character data, an entity reference is its expansion, the document type is not reported *)
+Fixpoint sax_of (x : xnode) : list sax_event :=
+  match x with
+  | XElem q a kids => EStart q a :: flat_map sax_of kids ++ [EEnd]
+  | XText s | XCData s => [EChars s]
+  | XEntRef _ kids => flat_map sax_of kids
+  | XComment s => [EComment s]
+  | XPi t d => [EPi t d]
+  | XDoctype _ _ => []
+  end.
+Definition sax_of_list (xs : list xnode) : list sax_event := flat_map sax_of xs.
+
 (* decidable guard: only element / text / comment / PI nodes *)
 Fixpoint xplain (x : xnode) : bool :=
   match x with
